@@ -373,7 +373,9 @@ pub fn c15(x: &str, cfg: &Cfg, opts: &C15Opts, ctx: &mut Ctx) {
     let case = |cur: &[u32]| json!({"oracle": "c15", "input": x, "cfg": cfg, "cursors": cur});
     let tx = r::scan(x);
     let to = r::scan(&plain);
-    let same_count = tx.len() == to.len();
+    // "the same token in the output" is only defined when the output re-scans to the same kinds of
+    // tokens (on garbage input neighbouring tokens may glue into different ones)
+    let same_count = tx.len() == to.len() && tx.iter().zip(&to).all(|(a, b)| a.kind == b.kind || (a.is_comment() && b.is_comment()));
     let mask = verbatim_mask(x, &tx);
     // expected position of a cursor, when the property determines it
     let expected = |c: u32| -> Option<u32> {
